@@ -78,6 +78,8 @@ def rdoc(rnd, depth, scope, top=False):
             used.add(an.split(":", 1)[1])
         val = rnd.choice(["v", "a b", "x&y", "<tag>", "q\"uote", "é", "", " padded ", "http://u/x?a=1&b=2",
                           "x\ny", "tab\there", "cr\rlf\r\n", "\n", " \t "])       # line breaks and tabs (written as character references: they are part of the value)
+        if an == "xml:space" or (an.endswith(":type") and rnd.random() < 0.3):
+            val = rnd.choice(["preserve", "default", "preserve"])      # attribute values that MEAN something to XML tools; the import policy goes by `literals` alone
         attrs.append(f'{an}="{esc_attr(val)}"')
     if rnd.random() < 0.5:
         rnd.shuffle(attrs)
@@ -133,6 +135,11 @@ def w_exhaustive(strings):
                 doc = "<r><x>" + esc_text(s) + "</x>" + esc_text(s) + "<y/></r>"
                 evs += record_import(doc, m, clean, collapse, lits, {"kind": "exhaustive", "text": s, "clean": clean, "collapse": collapse, "lits": list(lits)},
                                      reimport=False)
+                if len(s) <= 3 and not lits:
+                    # the same text below an element that SAYS xml:space="preserve": the import policy goes by `literals` alone
+                    doc2 = '<r><x xml:space="preserve">' + esc_text(s) + "</x>" + esc_text(s) + '<y xml:space="default"/></r>'
+                    evs += record_import(doc2, m, clean, collapse, lits, {"kind": "exhaustive", "text": s, "clean": clean, "collapse": collapse, "lits": [], "xml_space": "preserve"},
+                                         reimport=False)
     return evs
 
 
